@@ -690,6 +690,69 @@ func detectAccelFromTransitions(selfID StateID, stride int, transitionFn func(in
 	return exitBytes
 }
 
+// detectSoundAccel is the acceleration detection the search loops use. Unlike
+// detectAccelFromTransitions (kept for DetectAccelerationFromFlat) it only reports
+// bytes that may be skipped for certain.
+func detectSoundAccel(selfID StateID, stride int, transitionFn func(int) (StateID, bool), byteClasses *nfa.ByteClasses) []byte {
+	// Skipping a byte is only sound when the byte is KNOWN to loop back to this state:
+	//   - every class must be cached: an uncached transition is unknown (rows filled by
+	//     SearchFirstAt / SearchAtAnchored were never complete, and a later SearchAt
+	//     took the missing classes for skippable);
+	//   - a transition to the dead state ends the search, it is an exit like any other
+	//     (`a[bc]*d`: 'x' kills the state after "a"; skipping it made "axd" a match);
+	//   - memchr looks for ONE byte per exit class, so an exit class must consist of
+	//     exactly one byte.
+	var exitClasses []byte
+
+	for classIdx := 0; classIdx < stride; classIdx++ {
+		nextID, ok := transitionFn(classIdx)
+		if !ok {
+			return nil
+		}
+
+		if nextID == selfID {
+			continue
+		}
+
+		exitClasses = append(exitClasses, byte(classIdx))
+		if len(exitClasses) > 3 {
+			return nil
+		}
+	}
+
+	// Accelerable if we have 1-3 exit classes
+	if len(exitClasses) < 1 || len(exitClasses) > 3 {
+		return nil
+	}
+
+	// Convert class indices back to bytes for memchr
+	// If no ByteClasses, class index == byte value (identity mapping)
+	if byteClasses == nil {
+		return exitClasses
+	}
+
+	exitBytes := make([]byte, 0, len(exitClasses))
+	for _, classIdx := range exitClasses {
+		members := 0
+		var first byte
+		for b := 0; b < 256; b++ {
+			if byteClasses.Get(byte(b)) == classIdx {
+				if members == 0 {
+					first = byte(b)
+				}
+				members++
+			}
+		}
+		if members != 1 {
+			// Unused class index (padding up to stride) or a class of several bytes
+			return nil
+		}
+		exitBytes = append(exitBytes, first)
+	}
+
+	return exitBytes
+}
+
 // DetectAcceleration analyzes a state by computing all byte transitions.
 //
 // WARNING: This is expensive! It computes move() for every byte value.
